@@ -74,9 +74,10 @@ def evaluate(case):
     c = gen.build_circuit(case["nq"], case["nb"], case["specs"])
     before = list(c.ir.statements)
     pre = ser.ser_stmts(c.ir.statements)
+    ref = list(gen.build_circuit(case["nq"], case["nb"], case["specs"]).ir.statements)   # independent of objects the pass may mutate
     err, post = implrun.run_impl(c, ["merge"])
     after = list(c.ir.statements)
-    ev = {"circuit": c, "before": before, "pre": pre, "err": err, "post": post, "after": after}
+    ev = {"circuit": c, "before": before, "ref": ref, "pre": pre, "err": err, "post": post, "after": after}
     if err is None:
         n1 = len(after)
         err2, post2 = implrun.run_impl(c, ["merge"])
@@ -141,7 +142,7 @@ def oracle_c02(ctx, suite, case, ev, eq):
     # naming step may substitute a default gate that is allclose (1e-5 relative) to the merged rotation
     renamed = sum(1 for s in after if is_rot(s) and s.generator is not None and s.generator.__name__ in gen.ONEQ_NOPARAM)
     tol = 2e-6 * (1 + len(before)) + 3e-5 * renamed
-    ok, why = oracles.kraus_equivalent(before, after, tol)
+    ok, why = oracles.kraus_equivalent(ev.get("ref", before), after, tol)
     if not ok:
         ctx.oracle_fail(suite, case, "not equivalent: " + why, eq)
 
